@@ -186,6 +186,10 @@ theorem rinv_take {st : State} (hI : RInv cfg st) (sid : Nat) : RInv cfg (take c
       | nil => exact hI
       | cons q rest =>
         simp only
+        cases hup : cfg.upstream with
+        | some ap => exact rinv_setSess hI sid s _ hs rfl rfl rfl rfl (fun _ _ h => h) rfl rfl
+        | none =>
+        simp only
         cases htg : q.target with
         | ip a p =>
           exact rinv_setSess hI sid s _ hs rfl rfl rfl rfl (fun _ _ h => h) rfl rfl
